@@ -245,6 +245,43 @@ def _fold_block(block, later_reads):
             if done:
                 i += 1
                 continue
+        # a further fill loop onto a list whose content is explicit:
+        # L = L + [E for T in IT if ...]
+        if isinstance(st, ast.For) and not st.orelse and not _has_jump(st) and folded:
+            done = False
+            for L in list(folded):
+                if _mentions(st.iter, L):
+                    continue
+                temps = set()
+                try:
+                    tail, el = _fill_of(st.body, L, 'list', temps)
+                except _NoFold:
+                    continue
+                loopvars = _names(st.target) | temps
+                for t in tail:
+                    if t[0] == 'for':
+                        loopvars |= _names(t[1])
+                if loopvars & later_reads(i):
+                    continue
+                gens = [ast.comprehension(target=st.target, iter=st.iter, ifs=[], is_async=0)]
+                for t in tail:
+                    if t[0] == 'if':
+                        gens[-1].ifs.append(t[1])
+                    else:
+                        gens.append(ast.comprehension(target=t[1], iter=t[2], ifs=[],
+                                                      is_async=0))
+                comp = ast.ListComp(elt=el, generators=gens)
+                a = ast.Assign(targets=[ast.Name(id=L, ctx=ast.Store())],
+                               value=ast.BinOp(left=ast.Name(id=L, ctx=ast.Load()),
+                                               op=ast.Add(), right=comp))
+                ast.copy_location(a, st)
+                ast.fix_missing_locations(a)
+                block[i] = a
+                changed = done = True
+                break
+            if done:
+                i += 1
+                continue
         # content-explicit appends after a fold
         if isinstance(st, ast.Expr) and isinstance(st.value, ast.Call) and \
                 isinstance(st.value.func, ast.Attribute) and \
@@ -320,13 +357,52 @@ def _sink_block(block):
     return changed
 
 
+def _free_loads(node, bound=frozenset()):
+    """names read in `node` that are not (re)bound inside it before the read:
+    comprehension variables and the targets of for loops / earlier plain
+    assignments of the same statement list do not count"""
+    out = set()
+    if isinstance(node, list):
+        b = set(bound)
+        for st in node:
+            out |= _free_loads(st, frozenset(b))
+            if isinstance(st, ast.Assign):
+                for t in st.targets:
+                    if isinstance(t, ast.Name):
+                        b.add(t.id)
+        return out
+    if isinstance(node, (ast.ListComp, ast.SetComp, ast.GeneratorExp, ast.DictComp)):
+        b = set(bound)
+        for g in node.generators:
+            out |= _free_loads(g.iter, frozenset(b))
+            b |= _names(g.target)
+            for c in g.ifs:
+                out |= _free_loads(c, frozenset(b))
+        if isinstance(node, ast.DictComp):
+            out |= _free_loads(node.key, frozenset(b)) | _free_loads(node.value, frozenset(b))
+        else:
+            out |= _free_loads(node.elt, frozenset(b))
+        return out
+    if isinstance(node, ast.For):
+        out |= _free_loads(node.iter, bound)
+        b = frozenset(set(bound) | _names(node.target))
+        out |= _free_loads(node.body, b)
+        out |= _free_loads(node.orelse, bound)
+        return out
+    if isinstance(node, ast.Name):
+        if isinstance(node.ctx, ast.Load) and node.id not in bound:
+            out.add(node.id)
+        return out
+    for child in ast.iter_child_nodes(node):
+        out |= _free_loads(child, bound)
+    return out
+
+
 def _reads_after(func, block, idx):
     """names that may be read after statement block[idx] finished: the rest
     of its block, the rest of every enclosing block, and the whole body of
     every enclosing loop (next iteration)"""
-    out = set()
-    for st in block[idx + 1:]:
-        out |= _names(st, ast.Load)
+    out = _free_loads(list(block[idx + 1:]))
     node = block[idx]
     p = getattr(node, 'parent', None)
     while p is not None and p is not func:
@@ -340,8 +416,7 @@ def _reads_after(func, block, idx):
             for blk in lists:
                 if isinstance(blk, list) and any(x is p for x in blk):
                     k = [i for i, x in enumerate(blk) if x is p][0]
-                    for st in blk[k + 1:]:
-                        out |= _names(st, ast.Load)
+                    out |= _free_loads(list(blk[k + 1:]))
         p = pp
     return out
 
